@@ -230,6 +230,72 @@ theorem live_points_dict_roundtrip (cfg : Cfg V) (r : Registry V) (names : List 
   rw [hzip, dict_arrays_to_live_points cfg r names nsp _ data.length hf hne hlen hcols,
     transpose_transpose names.length data hd]
 
+/-- **Default-argument path, part 1 — rejected.**  `live_points_to_dict(x)` with its default
+`names=None` returns ALL fields, non-sampling ones included; feeding that to
+`dict_to_live_points(d)` with its default `non_sampling_parameters=True` makes `logP, logL, it, …`
+occur twice in the dtype, and the conversion raises `ValueError` for every number of points
+(observed on the real code).  So the selection `some names` in `live_points_dict_roundtrip`
+cannot be replaced by the default: the keys of a dictionary are parameter names and must be
+`Fresh` (this is `names_must_be_fresh` for dictionaries — a loud rejection, nothing is silently
+overwritten). -/
+theorem live_points_dict_roundtrip_fails_without (cfg : Cfg V) (r : Registry V) (names : List String)
+    (data : List (List V)) (hf : Fresh r names true) (hne : names ≠ [])
+    (hd : ∀ row ∈ data, row.length = names.length) :
+    ∃ d, livePointsToDict (canon cfg r names true data) none = .ok d
+      ∧ d.map Prod.fst = names ++ nonSamplingNames r
+      ∧ dictToLivePoints cfg r (d.map fun kv => (kv.1, DVal.arr kv.2)) true = .error .valueErr := by
+  have hall : (names ++ nonSamplingNames r).all (names ++ nonSamplingNames r).contains = true := by
+    rw [List.all_eq_true]; intro f hf'; simpa using hf'
+  have hnd : (names ++ nonSamplingNames r).Nodup := hf
+  have hd1 : livePointsToDict (canon cfg r names true data) none
+      = .ok ((names ++ nonSamplingNames r).map fun f =>
+          (f, getCol ((names ++ nonSamplingNames r).idxOf f) (data.map (· ++ tail cfg r true)))) := by
+    simp only [livePointsToDict, canon, nsNames, if_true, hall, eraseDups_of_nodup _ hnd]
+  refine ⟨_, hd1, ?_, ?_⟩
+  · simp [List.map_map, Function.comp_def]
+  · have hnot : ¬ Fresh r (names ++ nonSamplingNames r) true := by
+      unfold Fresh nsNames
+      simp only [if_true, List.append_assoc]
+      intro h
+      have h2 := (List.nodup_append.mp h).2.1
+      have h3 := (List.nodup_append.mp h2).2.2 "logP" (by simp [nonSamplingNames, coreNames]) "logP"
+        (by simp [nonSamplingNames, coreNames])
+      exact h3 rfl
+    have herr := getDtype_err cfg r (names ++ nonSamplingNames r) true hnot
+    cases names with
+    | nil => exact absurd rfl hne
+    | cons a ns =>
+      simp only [List.cons_append, List.map_cons, List.map_map, Function.comp_def, dictToLivePoints,
+        List.map_id', emptyStructured] at herr ⊢
+      simp [herr]
+
+/-- **Default-argument path, part 2 — works without re-adding the non-sampling fields.**  For any
+well-formed array, `live_points_to_dict(x)` (all fields) followed by
+`dict_to_live_points(d, non_sampling_parameters=False)` returns the same field names in the same
+order with the same values for every number of points, the stored non-sampling values included.
+(Only the layout differs: every field, `it` included, now has the default float dtype — `nf` is the
+number of fields; on the real code `it` comes back as `0.0` instead of integer `0`.) -/
+theorem live_points_dict_all_fields_roundtrip (cfg : Cfg V) (r : Registry V) (lp : LP V) (hw : lp.WF)
+    (hne : lp.fields ≠ []) :
+    ∃ d, livePointsToDict lp none = .ok d
+      ∧ d.map Prod.fst = lp.fields
+      ∧ dictToLivePoints cfg r (d.map fun kv => (kv.1, DVal.arr kv.2)) false
+          = .ok ⟨lp.fields, lp.fields.length, lp.rows⟩ := by
+  have hf : Fresh r lp.fields false := by unfold Fresh nsNames; simpa using hw.nodup
+  obtain ⟨d, h1, h2⟩ := live_points_dict_roundtrip cfg r lp.fields false lp.rows hf hne hw.rect
+  have hc : canon cfg r lp.fields false lp.rows = ⟨lp.fields, lp.fields.length, lp.rows⟩ := by
+    simp [canon, nsNames, tail, nfOf]
+  have hd : livePointsToDict lp none = livePointsToDict (canon cfg r lp.fields false lp.rows) (some lp.fields) := by
+    rw [hc]; rfl
+  rw [hc] at h2
+  refine ⟨d, by rw [hd, h1], ?_, h2⟩
+  have h1' := h1
+  rw [canon_toDict cfg r lp.fields false lp.rows hf hw.rect] at h1'
+  injection h1' with h1'
+  subst h1'
+  have hlen := length_transpose lp.fields.length lp.rows hw.rect
+  exact keys_zip lp.fields _ hlen
+
 /-- **Regression guard for the repaired defect** (nessai 0091c80).  A dictionary holding ONE point
 as length-one sequences — exactly what `live_points_to_dict` returns for a single live point —
 converts to the one-point canonical array (before the repair the `N == 1` branch handed the
@@ -409,7 +475,7 @@ theorem registry_add_existing_skipped (cfg : Cfg V) (r : Registry V) (p : String
 
 /-! ## the unstructured view -/
 
-/-- **The view is a window (read).**  For a well-formed array, the view on its first `k` fields
+/-- **The view is a window (read; lens law "get").**  For a well-formed array, the view on its first `k` fields
 (`k` at most the number of leading float fields — in particular the model's parameters) shows,
 for every point, exactly the values of those fields in field order. -/
 theorem view_is_window_get (lp : LP V) (hw : lp.WF) (k : Nat) (hk : k ≤ lp.nf) :
@@ -439,7 +505,10 @@ theorem view_is_window_get (lp : LP V) (hw : lp.WF) (k : Nat) (hk : k ≤ lp.nf)
   | some row => simp [hmem, hidx, hjk.1]
 
 /-- **The view is a window (write).**  Writing `v` at `[i, j]` through the view is the assignment
-`x[field_j][i] = v` on the underlying array: no copy is involved. -/
+`x[field_j][i] = v` on the underlying array.  (These view theorems are the lens laws get / put /
+frame.  In the model the view has no storage of its own, so "zero-copy" is not something a theorem
+here could refute: that the real view shares memory with the array is established by the tie —
+`np.shares_memory`, write-through and read-through on every generated case.) -/
 theorem view_set_is_field_set (lp : LP V) (hw : lp.WF) (k : Nat) (hk : k ≤ lp.nf)
     (i j : Nat) (v : V) (hi : i < lp.rows.length) (hj : j < k) (f : String)
     (hf : lp.fields[j]? = some f) :
@@ -569,5 +638,58 @@ example :
 
 example : (⟨["x", "y", "logP", "logL", "it"], 4, [[1, 2, 3, 4, 0]]⟩ : LP Int).WF :=
   ⟨by decide, by decide, by decide⟩
+
+/-! ## every theorem with hypotheses, APPLIED to a concrete state
+
+`exC`/`exR`: NaN token `-1`, one registered extra `q` with default 7; names `x, y`; a well-formed
+five-field array `exLP` with two points. -/
+
+def exC : Cfg Int := { nan := -1, it0 := 0 }
+def exR : Registry Int := ⟨[("q", 7)]⟩
+def exOps : List (RegOp Int) := [.add ["a", "b", "a"] (some [10, 20, 30]), .add ["c"] none]
+def exLP : LP Int := ⟨["x", "y", "logP", "logL", "it"], 4, [[1, 2, 3, 4, 0], [5, 6, 7, 8, 0]]⟩
+def exFresh : Fresh exR ["x", "y"] true := by unfold Fresh; decide +kernel
+def exFreshF : Fresh exR ["x", "y"] false := by unfold Fresh; decide +kernel
+def exWF : exLP.WF := ⟨by decide, by decide, by decide⟩
+def exNoReset : ∀ op ∈ exOps, op.isReset = false := by
+  intro op h
+  simp only [exOps, List.mem_cons, List.not_mem_nil, or_false] at h
+  rcases h with rfl | rfl <;> rfl
+
+example := array_to_live_points exC exR ["x", "y"] true [[1, 2], [3, 4], [5, 6]] exFresh (by decide) (by decide)
+example := array_to_live_points exC exR ["x", "y"] false [] exFreshF (by decide) (by decide)
+example := array_1d_is_one_point exC exR ["x", "y"] true [1, 2] exFresh (by decide) rfl
+example := array_empty exC exR ["x", "y"] true exFresh
+example := array_roundtrip exC exR ["x", "y"] true [[1, 2]] exFresh (by decide) (by decide)
+example := to_array_selects_fields exLP exWF ["logL", "x"] (by decide) (by decide) (by decide)
+example := names_must_be_fresh exC exR ["x", "q"] true (.d2 2 [[1, 2]]) (by unfold Fresh; decide +kernel)
+example := tuple_roundtrip exC exR ["x", "y"] true [4, 5] exFresh (by decide) rfl
+example := tuple_empty exC exR ["x", "y"] false exFreshF
+example := dict_scalars_to_live_point exC exR ["x", "y"] true [4, 5] exFresh (by decide) rfl
+example := dict_arrays_to_live_points exC exR ["x", "y"] true [[1, 3, 5], [2, 4, 6]] 3 exFresh (by decide) rfl (by decide)
+example := dict_arrays_to_live_points exC exR ["x", "y"] true [[1], [2]] 1 exFresh (by decide) rfl (by decide)
+example := dict_roundtrip exC exR ["x", "y"] true [[], []] 0 exFresh (by decide) rfl (by decide)
+example := dict_roundtrip exC exR ["x", "y"] true [[1], [2]] 1 exFresh (by decide) rfl (by decide)
+example := live_points_dict_roundtrip exC exR ["x", "y"] true [[1, 2]] exFresh (by decide) (by decide)
+example := live_points_dict_roundtrip_fails_without exC exR ["x", "y"] [[1, 2], [3, 4]] exFresh (by decide) (by decide)
+example := live_points_dict_all_fields_roundtrip exC exR exLP exWF (by decide)
+example := dict_length_one_sequences exC exR ["x", "y"] true [4, 5] exFresh (by decide) rfl
+example := dict_scalar_then_sequence_rejected exC exR "x" "y" 1 [2, 3] [] true
+example := dataframe_to_live_points exC exR ["x", "y"] true [[1, 2]] exFresh (by decide)
+example := dataframe_eq_dict_eq_array exC exR ["x", "y"] true [[1, 2]] exFresh (by decide) (by decide)
+example := defaults exC exR ["x", "y"] [[1, 2], [3, 4]] exFresh (by decide)
+example := empty_structured exC exR 3 ["x", "y"] true exFresh (by decide)
+example := conversions_wf exC exR ["x", "y"] true [[1, 2], [3, 4]] exFresh (by decide)
+example := registry_history_after_reset exC exR [.add ["z"] none] exOps exNoReset
+example := registry_history_no_reset exC exOps exNoReset
+example := registry_history_cases (exOps ++ [.reset] ++ exOps)
+example := registry_no_duplicates exC (exOps ++ [.reset] ++ exOps)
+example := registry_new_arrays exC exOps ["x", "y"] [[1, 2]] (by decide) (by unfold Fresh; decide +kernel) (by decide)
+example := registry_add_existing_skipped exC exR "q" 99 (by decide)
+example := view_is_window_get exLP exWF 2 (by decide)
+example := view_set_is_field_set exLP exWF 2 (by decide) 1 0 9 (by decide) (by decide) "x" rfl
+example := view_set_frame exLP exWF "y" 1 9 (by decide) (by decide)
+example := view_put_get exLP exWF 4 (by decide) 0 3 9 (by decide) (by decide)
+example := view_of_parameters exC exR ["x", "y"] true [[1, 2], [3, 4]] exFresh (by decide)
 
 end NessaiVerif.C18
